@@ -318,6 +318,12 @@ func c02Check(c *core.Case, sp *c02Spec, bitsPerByte int) {
 			c.Fatalf("encrypted frame sealed for B unsealed under the session of a different receiver D")
 		}
 	}
+	// Reflection: the frame handed back to its sender unseals under A's own
+	// session for B (which belongs to the sender B) only if A accepted its own
+	// frame as B's.
+	if _, perr, uerr := c02Unseal(sb, sp.offS, sp.ovS, wire, p.sAB); perr == nil && uerr == nil {
+		c.Fatalf("frame sealed by A for B unsealed under A's own session for B (a session that belongs to sender B)")
+	}
 
 	// Must-reject mutants, all against the right receiver session.
 	rejects, accepts := 0, 0
